@@ -22,18 +22,18 @@ ASSUMPTIONS = ['message boundaries come from the independent TLV reader in vf/mo
 REPORT = ['modules', 'messages', 'evaluations', 'decode_with_length_checks', 'decode_length_checks',
           'cut_inside_identifier', 'cut_inside_length_octets', 'header_complete', 'multi_octet_identifier', 'long_form_length']
 FLOORS = {'quick': {'evaluations': 50000, 'cut_inside_identifier': 200, 'cut_inside_length_octets': 500},
-          'thorough': {'evaluations': 500000, 'cut_inside_identifier': 2000, 'cut_inside_length_octets': 5000}}
+          'thorough': {'evaluations': 200000, 'cut_inside_identifier': 800, 'cut_inside_length_octets': 2000}}
 TIMEOUT = {'quick': 1500, 'thorough': 14000}
 
 
 def shards(tier):
-    return 32 if tier == 'quick' else 128
+    return 32 if tier == 'quick' else 64
 
 
 def params(tier):
     if tier == 'quick':
         return {'modules': 6, 'values': 8}
-    return {'modules': 24, 'values': 14}
+    return {'modules': 18, 'values': 12}
 
 
 def profile(tier):
